@@ -131,6 +131,10 @@ type violationRec struct {
 	Replay ReplayFile `json:"replay"`
 }
 
+// gcEvery: a forced collection every so many runs (pools are drained at the
+// start of every run anyway, so where the collection falls does not matter).
+const gcEvery = 20
+
 func getenvInt(k string, def int) int {
 	if v := os.Getenv(k); v != "" {
 		n, err := strconv.Atoi(v)
@@ -159,7 +163,11 @@ func WorkerMain(t *testing.T) {
 		os.Exit(2)
 	}
 	runtime.GOMAXPROCS(1)
-	debug.SetGCPercent(400)
+	// No GC while a run is in progress: a collection empties sync.Pools (and
+	// thereby changes buffer capacities and read sizes) at an instant the seed
+	// does not control. Collections are forced between runs instead.
+	debug.SetGCPercent(-1)
+	debug.SetMemoryLimit(6 << 30)
 	seed := int64(getenvInt("VERIF_SEED", 1))
 	mode := os.Getenv("VERIF_MODE")
 	if mode == "" {
@@ -260,6 +268,9 @@ func WorkerMain(t *testing.T) {
 		enc.Encode(sum)
 	}
 	for run := from; run < to; run++ {
+		if (run-from)%gcEvery == gcEvery-1 {
+			runtime.GC()
+		}
 		if mark != nil {
 			mark.WriteAt([]byte(fmt.Sprintf("%-12d\n", run)), 0)
 		}
